@@ -205,6 +205,9 @@ FIXED_GROUPS = [
     ["/d.dods?s&bounds(0,5,0,5,0,5,00Z01JAN1970,00Z01JAN1970)", "/d.das"],
     ["/d.dods?st.in.r[1]", "/d.dds?p", "/d.dods?nofunc(a)"],
     ["/d.dods", "/d.ascii", "/d.dods?a[x]"],
+    # two function calls on an application that has served none yet (whatever a first call sets up must not be
+    # visible half-done to a second one)
+    ["/d.dods?mean(a)", "/d.dods?mean(g,1)"],
 ]
 
 
